@@ -16,7 +16,7 @@ import (
 
 func init() {
 	vc.Register(&vc.Check{ID: "C11", Level: "fault_enumeration", Run: run, Replay: replay, QuickSec: 170, ThoroSec: 2400,
-		Rule: "for each chip configuration the fault-free read is run and its N exchanges numbered; then for EVERY exchange index k in [0,N) and EVERY fault kind of the 16-entry menu (bare 6A82, bare 6283, empty, first byte only, last byte dropped, first half, data bit flipped, SW bit flipped, 1 byte appended, 300 bytes appended, SW:=6A82/6982/6700/6300, bare 9000, previous response replayed) one complete execution of the real Reader.ReadDocument against the independent chip (D=1: N x 16 per configuration); D=2 = all ordered pairs of faults (quick: 4 session-continuing kinds on the smallest configuration; thorough: all 16 x 16 kinds on three configurations), which replaces 'random multi-fault sequences' by an exhaustive bound. Horizon: more than 20 N exchanges = livelock. Oracle from the chip's own truth: no panic escapes; every file returned is byte-identical to the chip's; no protocol reported successful that the chip did not complete; DataTrusted only if issuer trusted and all returned files genuine; a faulted read (fault on a protected exchange) that reports neither an error nor a failed step must be indistinguishable from the fault-free read (no silent degradation). distinct_nontrivial = distinct (configuration, k, fault kind, outcome signature)",
+		Rule:   "for each chip configuration the fault-free read is run and its N exchanges numbered; then for EVERY exchange index k in [0,N) and EVERY fault kind of the 16-entry menu (bare 6A82, bare 6283, empty, first byte only, last byte dropped, first half, data bit flipped, SW bit flipped, 1 byte appended, 300 bytes appended, SW:=6A82/6982/6700/6300, bare 9000, previous response replayed) one complete execution of the real Reader.ReadDocument against the independent chip (D=1: N x 16 per configuration); D=2 = all ordered pairs of faults (quick: 4 session-continuing kinds on the smallest configuration; thorough: all 16 x 16 kinds on three configurations), which replaces 'random multi-fault sequences' by an exhaustive bound. Horizon: more than 20 N exchanges = livelock. Oracle from the chip's own truth: no panic escapes; every file returned is byte-identical to the chip's; no protocol reported successful that the chip did not complete; DataTrusted only if issuer trusted and all returned files genuine; a faulted read (fault on a protected exchange) that reports neither an error nor a failed step must be indistinguishable from the fault-free read (no silent degradation). distinct_nontrivial = distinct (configuration, k, fault kind, outcome signature)",
 		Assume: []string{"content corruption of the plaintext EF.CardAccess read (before any session exists) is undetectable by any implementation; byte-identity of CardAccess is therefore not asserted for faults on unprotected exchanges", "faults are applied to the response bytes on the wire; the chip itself behaves conformingly"}})
 }
 
@@ -81,41 +81,62 @@ func applyFault(kind string, genuine, prev []byte) []byte {
 type chipCfg struct {
 	Name string
 	Cfg  func() perso.Config
+	Tune func(chip *refchip.Chip) // transport behaviour of the chip (Le cap, short reads); nil = answers every Le in full
 }
 
 func configs(thorough bool) []chipCfg {
 	one := 1
 	out := []chipCfg{
-		{"BAC+AA-RSA", func() perso.Config {
+		{Name: "BAC+AA-RSA", Cfg: func() perso.Config {
 			return perso.Config{BAC: true, DGs: []int{2}, AA: &perso.AASpec{RSABits: 1024, Trailer: "34CC"}}
 		}},
-		{"PACE-GM+BAC+CA", func() perso.Config {
+		{Name: "PACE-GM+BAC+CA", Cfg: func() perso.Config {
 			return perso.Config{BAC: true, PACE: []refchip.PACEProto{{Mapping: 2, Cipher: 2, ParamID: 13}}, DGs: []int{2, 11}, CA: []perso.CASpec{{Curve: "brainpoolP256r1", Cipher: 2, KeyID: &one}}}
 		}},
-		{"PACE-CAM+AA-ECDSA", func() perso.Config {
+		{Name: "PACE-CAM+AA-ECDSA", Cfg: func() perso.Config {
 			return perso.Config{PACE: []refchip.PACEProto{{Mapping: 6, Cipher: 2, ParamID: 12}}, DGs: []int{2}, AA: &perso.AASpec{Curve: "P-256"}}
 		}},
 	}
 	// a chip whose LAST data group is an optional one (a silently dropped last file has no later exchange that could fail)
-	out = append(out, chipCfg{"BAC-only", func() perso.Config { return perso.Config{BAC: true, DGs: []int{2, 7, 11, 12}} }})
+	out = append(out, chipCfg{Name: "BAC-only", Cfg: func() perso.Config { return perso.Config{BAC: true, DGs: []int{2, 7, 11, 12}} }})
+	// secondary read paths: a chip that rejects READ BINARY above 192 bytes (the library falls back 256 -> 192 and
+	// lowers its read size for the rest of the session), and a chip that returns fewer bytes than requested
+	out = append(out,
+		chipCfg{Name: "BAC+AA-ECDSA/le-cap-192-fallback", Cfg: func() perso.Config {
+			return perso.Config{BAC: true, DGs: []int{2, 11}, AA: &perso.AASpec{Curve: "P-256"}}
+		}, Tune: func(chip *refchip.Chip) { chip.LeCap = 192 }},
+		chipCfg{Name: "BAC/short-reads-half", Cfg: func() perso.Config { return perso.Config{BAC: true, DGs: []int{2}} },
+			Tune: func(chip *refchip.Chip) {
+				chip.ReadChoice = func(r refchip.ReadReq) int {
+					n := min(r.Ne, r.Avail)
+					if r.Ne <= 4 {
+						return n // the 4-byte header probe is answered in full (a shorter answer is an error for the library: C13)
+					}
+					return max(1, (n+1)/2)
+				}
+			}})
 	if thorough {
 		out = append(out,
-			chipCfg{"BAC+CA-3DES-noinfo", func() perso.Config {
+			chipCfg{Name: "PACE-GM/le-cap-128-fallback", Cfg: func() perso.Config {
+				return perso.Config{PACE: []refchip.PACEProto{{Mapping: 2, Cipher: 2, ParamID: 13}}, DGs: []int{2, 7}}
+			}, Tune: func(chip *refchip.Chip) { chip.LeCap = 128 }})
+		out = append(out,
+			chipCfg{Name: "BAC+CA-3DES-noinfo", Cfg: func() perso.Config {
 				return perso.Config{BAC: true, DGs: []int{2}, CA: []perso.CASpec{{Curve: "P-256", Cipher: 1, NoInfo: true}}}
 			}},
-			chipCfg{"PACE-GM-only-3DES", func() perso.Config {
+			chipCfg{Name: "PACE-GM-only-3DES", Cfg: func() perso.Config {
 				return perso.Config{PACE: []refchip.PACEProto{{Mapping: 2, Cipher: 1, ParamID: 12}}, DGs: []int{2, 16}}
 			}},
-			chipCfg{"PACE-GM+BAC-untrusted", func() perso.Config {
+			chipCfg{Name: "PACE-GM+BAC-untrusted", Cfg: func() perso.Config {
 				return perso.Config{BAC: true, PACE: []refchip.PACEProto{{Mapping: 2, Cipher: 4, ParamID: 16}}, DGs: []int{2}, Untrusted: true}
 			}},
-			chipCfg{"PACE-CAM-AES256+CA", func() perso.Config {
+			chipCfg{Name: "PACE-CAM-AES256+CA", Cfg: func() perso.Config {
 				return perso.Config{PACE: []refchip.PACEProto{{Mapping: 6, Cipher: 4, ParamID: 13}}, DGs: []int{2}, CA: []perso.CASpec{{Curve: "P-384", Cipher: 4}}}
 			}},
-			chipCfg{"BAC+AA-ECDSA-DER+CA", func() perso.Config {
+			chipCfg{Name: "BAC+AA-ECDSA-DER+CA", Cfg: func() perso.Config {
 				return perso.Config{BAC: true, DGs: []int{2, 13}, AA: &perso.AASpec{Curve: "brainpoolP384r1", DER: true}, CA: []perso.CASpec{{Curve: "P-256", Cipher: 2}}}
 			}},
-			chipCfg{"BAC-large-DG", func() perso.Config {
+			chipCfg{Name: "BAC-large-DG", Cfg: func() perso.Config {
 				big := append([]byte{0x6D, 0x82, 0x07, 0xD0}, bytes.Repeat([]byte{0x5C}, 2000)...)
 				return perso.Config{BAC: true, DGs: []int{2}, DGOverride: map[int][]byte{13: big}}
 			}},
@@ -136,11 +157,11 @@ type caseRec struct {
 }
 
 type result struct {
-	Key, What string
-	Sig       string
-	Exchanges int
-	Complete  string // files present + verdicts; compared with the fault-free run when a faulted read reports no failure
-	Failed    bool   // the read returned an error or recorded a failed step
+	Key, What        string
+	Sig              string
+	Exchanges        int
+	Complete         string // files present + verdicts; compared with the fault-free run when a faulted read reports no failure
+	Failed           bool   // the read returned an error or recorded a failed step
 	UnprotectedFault bool
 }
 
@@ -148,6 +169,9 @@ func runCase(cc chipCfg, faults []fault, n int) result {
 	cfg := cc.Cfg()
 	p := perso.Build(cfg)
 	chip := p.Chip
+	if cc.Tune != nil {
+		cc.Tune(chip)
+	}
 	limit := 20*n + 1100 // above the library's own 1000-chunk bound
 	overrun := false
 	unprotectedFault := false
